@@ -728,6 +728,15 @@ fn main() {
                     .file_name()
                     .map(|f| f.to_string_lossy().split('-').next().unwrap_or("").to_string())
                     .unwrap_or_default();
+                // the property id may also be given by the file's "property" field (copies kept
+                // under findings/ are named after the finding)
+                let prop = if j.str("property").is_empty() { prop } else { j.str("property").to_string() };
+                let known = load_known();
+                if let Some(k) = known_for(&known, &prop, &r.msg) {
+                    println!("KNOWN-FINDING: property={} {}", prop, k.what);
+                    println!("  reproduced: {} {}", r.verdict, r.msg);
+                    std::process::exit(0);
+                }
                 println!("VIOLATION property={} replay={}", prop, args[2]);
                 println!("  reproduced: {} {}", r.verdict, r.msg);
                 if !j.str("hash").is_empty() && j.str("hash") == r.j.str("hash") {
